@@ -65,6 +65,8 @@ func NewCuckooFilterWithErrorRate(size, bucketSize, retries uint64, errorRate fl
 // Length returns the current length of the Cuckoo Filter or the current number of entries
 // present in the Cuckoo Filter
 func (cuckooFilter *CuckooFilter) Length() uint64 {
+	cuckooFilter.lock.Lock()
+	defer cuckooFilter.lock.Unlock()
 	return cuckooFilter.length
 }
 
@@ -183,6 +185,8 @@ type cuckooFilterMemJSON struct {
 
 // Export JSON marshals the CuckooFilter and returns a byte slice containing the data
 func (cuckooFilter *CuckooFilter) Export() ([]byte, error) {
+	cuckooFilter.lock.Lock()
+	defer cuckooFilter.lock.Unlock()
 	bucketsJSON := make([]bucketMemJSON, cuckooFilter.size)
 	for i := range cuckooFilter.buckets {
 		bucket := cuckooFilter.buckets[i]
@@ -231,6 +235,8 @@ func (cuckooFilter *CuckooFilter) Import(data []byte) error {
 // number of bytes written.
 // It can be used to write to disk (using a file stream) or to network.
 func (cuckooFilter *CuckooFilter) WriteTo(stream io.Writer) (int64, error) {
+	cuckooFilter.lock.Lock()
+	defer cuckooFilter.lock.Unlock()
 	err := binary.Write(stream, binary.BigEndian, cuckooFilter.size)
 	if err != nil {
 		return 0, err
